@@ -667,7 +667,7 @@ fn process_request_obj(request: &Request, dbs: &Arc<Databases>, client: &mut Cli
             // primary resolve and replicate it again, for ever)
             let apply_here = dbs.is_primary() || client.is_primary();
             // Replica set or admin auth resolving
-            if client.auth.load(Ordering::SeqCst) {
+            let result = if client.auth.load(Ordering::SeqCst) {
                 apply_to_database_name(
                     dbs,
                     client,
@@ -699,7 +699,7 @@ fn process_request_obj(request: &Request, dbs: &Arc<Databases>, client: &mut Cli
                         }
                     },
                     &PermissionKind::Read,
-                );
+                )
             } else {
                 // Resolving writes the key: same checks as a set (write permission for the key,
                 // secure keys only for the admin)
@@ -734,8 +734,12 @@ fn process_request_obj(request: &Request, dbs: &Arc<Databases>, client: &mut Cli
                     }
                     },
                     PermissionKind::Write,
-                );
+                )
             };
+            // A refused resolve is an error for the caller too, it must not be replicated
+            if let Response::Error { msg } = result {
+                return Response::Error { msg };
+            }
             return Response::Ok {};
         }
         Request::ListCommands {} => apply_if_auth(&client.auth, &|| {
